@@ -128,7 +128,7 @@ class Scenario:
         growth = 0
         for mi, md in enumerate(spec.get("mods", [])):
             if md.get("patch") == "rawbytes":
-                self.raw_len[mi] = e.int("raw%d" % mi, 1, None)
+                self.raw_len[mi] = e.int("raw%d" % md.get("uid", mi), 1, None)
                 growth = growth + self.raw_len[mi]
         self.sections = []
         self.intervals = {}
@@ -433,16 +433,16 @@ class Scenario:
     def _patch_arg(self, mi, md):
         if md["patch"] == "rawbytes":
             n = self.raw_len[mi]
-            src = "raw%d" % mi
+            src = "raw%d" % md.get("uid", mi)
             if self.sym:
                 p = Rope.src(src, n)
             else:
-                self.sources[src] = bytes([(0xA0 + mi + k) & 0xFF for k in range(n)])
+                self.sources[src] = bytes([(0xA0 + md.get("uid", mi) + k) & 0xFF for k in range(n)])
                 p = self.sources[src]
             self.data_patch[mi] = (src, n)
             self.mod_patches[mi] = p
             return p
-        p = self.make_patch(mi, md["patch"])
+        p = self.make_patch(md.get("uid", mi), md["patch"])
         self.mod_patches[mi] = p
         return p
 
